@@ -1065,6 +1065,11 @@ def run_case(case):
         ntr += 1
         sing = [m for m in msgs if "singular" in m.lower() or "MatrixRankWarning" in m]
         if err is not None:
+            if solver in ("cg", "bicg", "gmres", "lgmres") and "did not converge" in err:
+                # a Krylov backend that does not reach its tolerance refuses clearly (it used to hand its last iterate out as the solution):
+                # no solution is given, nothing to compare
+                outcomes.append("refused_not_converged")
+                continue
             v.append(viol("solve_raised", f"{prog} [{ground}] {solver}: {err}", exc=err.split(":")[0], **key))
             outcomes.append("raised")
             continue
